@@ -21,7 +21,8 @@ ASSUMPTIONS = ["reference model vf/props/C09.py:Model (sorted list by (prio, "
                "insertion seq)) is the meaning of 'stable priority queue'",
                "priorities are ints/floats without NaN"]
 MIN_COUNTERS = {'ops_compared': 1000, 'invariant_evals': 1000,
-                'score_histories': 5, 'atexit_histories': 3}
+                'score_histories': 5, 'atexit_histories': 3, 'clock_histories': 40,
+                'clock_wakeups_compared': 100}
 
 
 def plan(tier, seed):
@@ -36,6 +37,12 @@ def plan(tier, seed):
         shards.append({'name': f'score{p}', 'mode': 'nrt', 'kind': 'score',
                        'first_case': f, 'n': n, 'secs': secs,
                        'hard_timeout': secs + 120})
+    # clocks as users of the queue (real-time): tasks that move / clear other
+    # pending tasks of the same tick
+    for p, ck in enumerate(['SystemClock', 'TempoClock']):   # AppClock batches expired items by design
+        shards.append({'name': f'clock-{ck}', 'mode': 'rt', 'kind': 'clockuser', 'clock': ck,
+                       'first_case': 0, 'n': 60 if tier == 'quick' else 1200,
+                       'secs': 40 if tier == 'quick' else 560, 'hard_timeout': 700})
     # exit actions: one shutdown per process
     for p in range(4 if tier == 'quick' else 16):
         shards.append({'name': f'atexit{p}', 'mode': 'nrt', 'kind': 'atexit',
@@ -282,8 +289,128 @@ def run_shard(spec, acc):
         acc.counters['invariant_evals'] = _inv_evals[0]
     elif kind == 'atexit':
         run_atexit(spec, acc)
+    elif kind == 'clockuser':
+        run_clockuser(spec, acc)
     else:
         run_score(spec, acc, Q)
+
+
+def run_clockuser(spec, acc):
+    """The queue through its main user, a real-time clock.  A history of items
+    is scheduled (by one set-up task, so nothing is awakened half way) at
+    absolute logical times with many ties; when awakened, an item may schedule
+    another item again (pending: it must MOVE, as the most recent entry of its
+    new time; already awakened: a fresh entry) or clear the clock.  The order
+    and logical times of all wake-ups are compared with the sorted-list model.
+    Everything happens inside wake-ups on the clock's own thread, so the
+    expected sequence does not depend on physical timing."""
+    import threading
+    import time as _time
+    from sc3.base.main import main
+    from sc3.base import clock as clk
+    from sc3.base.functions import Function
+    ck = spec['shard']['clock']
+    for i in iter_cases(spec):
+        rng = case_rng(spec['seed'], 'C09', 'clockuser' + ck, i)
+        clock = {'SystemClock': clk.SystemClock, 'AppClock': clk.AppClock}.get(ck)
+        if clock is None:
+            clock = clk.TempoClock(rng.choice([1, 2, 4]))
+        n = rng.randint(3, 9)
+        step = 1 / 64
+        slots = [rng.randint(1, 5) for _ in range(n)]         # ties dominate
+        actions = {}
+        for k in range(n):
+            x = rng.random()
+            if x < 0.45:
+                actions[k] = ('move', rng.randrange(n), rng.randint(0, 4))
+            elif x < 0.55 and ck != 'AppClock':
+                actions[k] = ('clear',)
+        woke = []
+        done = threading.Event()
+        items = []
+        base = [None]
+
+        def mk(k):
+            def f(item, c):
+                now = c.beats if ck == 'TempoClock' else c.seconds
+                woke.append((k, now))
+                a = actions.get(k)
+                if a and a[0] == 'move':
+                    t = now + a[2] * step
+                    if ck == 'AppClock':
+                        c.sched(a[2] * step, items[a[1]])
+                    else:
+                        c.sched_abs(t, items[a[1]])
+                elif a and a[0] == 'clear':
+                    c.clear()
+            return Function(f)
+        items.extend(mk(k) for k in range(n))
+
+        def setup(item, c):
+            now = c.beats if ck == 'TempoClock' else c.seconds
+            base[0] = now
+            for k in range(n):
+                if ck == 'AppClock':
+                    c.sched(slots[k] * step, items[k])
+                else:
+                    c.sched_abs(now + slots[k] * step, items[k])
+        # model
+        model = Model()
+        for k in range(n):
+            model.add(slots[k], k)
+        exp = []
+        guard = 0
+        while not model.empty() and guard < 200:
+            guard += 1
+            t, k = model.pop()
+            exp.append((k, t))
+            a = actions.get(k)
+            if a and a[0] == 'move':
+                model.add(t + a[2], a[1])
+            elif a and a[0] == 'clear':
+                model.clear()
+        if guard >= 200 or ck == 'AppClock' and any(
+                a[0] == 'move' and a[2] == 0 for a in actions.values()):
+            continue      # endless ping-pong at one instant / physical-time ties: skip
+        if ck == 'AppClock' and len(set(slots)) < len(slots):
+            # AppClock keys on the physical present: equal slots are not exact ties
+            pass
+        clock.sched(0, Function(setup))
+        t_end = _time.time() + 10
+        while _time.time() < t_end and len(woke) < len(exp):
+            _time.sleep(0.01)
+        _time.sleep(max(0.05, 6 * step))
+        with main._main_lock:
+            got = list(woke)
+        acc.count('clock_histories')
+        acc.count('clock_wakeups_compared', len(exp))
+        moved_pending = sum(1 for a in actions.values() if a[0] == 'move')
+        acc.case(h64((ck, slots, sorted(actions.items()))), nontrivial=moved_pending > 0)
+        if ck == 'AppClock':
+            # drifting clock: compare the multiset and per-item counts only
+            okay = sorted(k for k, _ in got) == sorted(k for k, _ in exp)
+        else:
+            okay = [k for k, _ in got] == [k for k, _ in exp] and all(
+                abs((t - base[0]) / step - e) < 1e-6
+                for (_, t), (_, e) in zip(got, exp))
+        if not okay:
+            what = 'wake-ups-differ-from-queue-model'
+            gk, ek = [k for k, _ in got], [k for k, _ in exp]
+            if len(gk) > len(ek) or any(gk.count(k) > ek.count(k) for k in set(gk)):
+                what = 'item-awakened-although-moved-or-cleared'
+            elif sorted(gk) == sorted(ek):
+                what = 'order-or-time-differs'
+            acc.violation(f'C09/clock-user/{ck}/{what}',
+                          {'case': i, 'slots': slots, 'actions': {str(k): v for k, v in actions.items()},
+                           'expected': exp, 'got': [(k, None if base[0] is None else
+                                                     round((t - base[0]) / step, 6))
+                                                    for k, t in got]})
+        elif acc.want_sample() and moved_pending:
+            acc.sample({'case': i, 'clock': ck, 'slots': slots,
+                        'actions': {str(k): v for k, v in actions.items()},
+                        'wakeups': exp})
+        if ck == 'TempoClock':
+            clock.stop()
 
 
 def run_atexit(spec, acc):
